@@ -151,6 +151,8 @@ FULL_UNARY = [
 FULL_NARY = [
     (2, lambda cs: ['cat', cs]), (3, lambda cs: ['cat', cs]), (2, lambda cs: ['fc', cs[0], cs[1]]),
     (2, lambda cs: ['fill', cs]), (3, lambda cs: ['fill', cs]),
+    # degenerate arities: empty and one-element concat / fill (normalisation special-cases them)
+    (0, lambda cs: ['cat', []]), (0, lambda cs: ['fill', []]), (1, lambda cs: ['cat', cs]), (1, lambda cs: ['fill', cs]),
 ]
 CLASSIC_UNARY = [
     lambda c: ['nest', 2, c], lambda c: ['grp', c], lambda c: ['ab', c], lambda c: ['align', c],
